@@ -85,7 +85,7 @@ func genPipelined(t *rapid.T) Pipelined {
 		}
 		c.Conns = append(c.Conns, sizes)
 	}
-	if rapid.IntRange(0, 9).Draw(t, "tsig") < 4 {
+	if rapid.IntRange(0, 9).Draw(t, "tsig") >= 6 {
 		if pbt.Known(knownSharedTsigWriter) {
 			pbt.Excluded(knownSharedTsigWriter)
 			return c
